@@ -28,7 +28,7 @@ func (c18) ID() string { return "C18" }
 func (c18) Meta(tier string) engine.Meta {
 	return engine.Meta{
 		Level: "model_checking",
-		Rule: "all ordered pairs of values of one type, for 18 types: numbers {0,-0,±1,1+2e-9,0.1,2^53,2^53+2,±2^63,±(2^63+2048),2^63-1024,1e300,1e301,-1e300}, strings needing escapes, booleans, instants (incl. the same instant in another zone and with sub-second parts), lists of <= 2 numbers, lists of objects, string- and number-keyed maps built in every insertion order, 3-field objects in all 6 field orders, nested objects, optionals; each pair as raw values and (where Go data can express it) as converted host data; plus programs in which one value is reached through two paths ([xs, xs], {a: xs, b: xs}, …) against the equal value built from separate copies; every pair under map-iteration seeds 1..8 (all orders the runtime can produce for <= 8 entries). Oracle (premise: numeric parts identical or further apart than the tolerance, guaranteed by the value sets): x == y (language operator on singleton lists), equal String(), equal Key() / isset / get on a map keyed by x, and union / intersect / diff element identity must all coincide with the reference's structural equality; reflexive on independently built copies, symmetric; String() identical for every seed. non-trivial = every pair",
+		Rule: "all ordered pairs of values of one type, for 23 types: numbers {0,-0,±1,1+2e-9,0.1,2^53,2^53+2,±2^63,±(2^63+2048),2^63-1024,1e300,1e301,-1e300}, strings needing escapes, booleans, instants (incl. the same instant in another zone and with sub-second parts), lists of <= 2 numbers, lists of objects, string- and number-keyed maps built in every insertion order, 3-field objects in all 6 field orders, nested objects, optionals; each pair as raw values and (where Go data can express it) as converted host data; plus programs in which one value is reached through two paths ([xs, xs], {a: xs, b: xs}, …) against the equal value built from separate copies; every pair under map-iteration seeds 1..8 (all orders the runtime can produce for <= 8 entries). Oracle (premise: numeric parts identical or further apart than the tolerance, guaranteed by the value sets): x == y (language operator on singleton lists), equal String(), equal Key() / isset / get on a map keyed by x, and union / intersect / diff element identity must all coincide with the reference's structural equality; reflexive on independently built copies, symmetric; String() identical for every seed. non-trivial = every pair",
 		Bound: "values of depth <= 2; containers of width <= 2 (objects 3); 8 seeds",
 		Assumptions: []string{"probe programs are compiled once per element type on the default back end and invoked per pair"},
 	}
@@ -113,7 +113,8 @@ func c18Values() map[string][]*ref.V {
 	out["list[list[num]]"] = []*ref.V{ll(), ll(le), ll(l12), ll(l21), ll(l12, l21), ll(l21, l12), ll(l12, l12), ll(le, le), ll(ref.ListV(N, nums(1)...), ref.ListV(N, nums(2)...))}
 	out["map[bool,num]"] = []*ref.V{ref.MapV(gen.Bool, N, ref.BoolV(true), ref.NumV(1)), ref.MapV(gen.Bool, N, ref.BoolV(false), ref.NumV(1)),
 		ref.MapV(gen.Bool, N, ref.BoolV(true), ref.NumV(1), ref.BoolV(false), ref.NumV(2)), ref.MapV(gen.Bool, N, ref.BoolV(false), ref.NumV(2), ref.BoolV(true), ref.NumV(1)), ref.MapV(gen.Bool, N, ref.BoolV(true), ref.NumV(2))}
-	out["map[time,str]"] = []*ref.V{ref.MapV(gen.Time, gen.Str, ref.TimeV(t0), ref.StrV("x")), ref.MapV(gen.Time, gen.Str, ref.TimeV(t0.In(tokyo)), ref.StrV("x")),
+	out["map[time,str]"] = []*ref.V{ref.MapV(gen.Time, gen.Str, ref.TimeV(t0), ref.StrV("x")), ref.MapV(gen.Time, gen.Str, ref.TimeV(t0), ref.StrV("x"), ref.TimeV(t0.Add(500*time.Millisecond)), ref.StrV("y")),
+		ref.MapV(gen.Time, gen.Str, ref.TimeV(t0.Add(500*time.Millisecond)), ref.StrV("x")), ref.MapV(gen.Time, gen.Str, ref.TimeV(t0.In(tokyo)), ref.StrV("x")),
 		ref.MapV(gen.Time, gen.Str, ref.TimeV(t0.Add(time.Second)), ref.StrV("x")), ref.MapV(gen.Time, gen.Str, ref.TimeV(t0), ref.StrV("x"), ref.TimeV(t0.Add(time.Second)), ref.StrV("y")),
 		ref.MapV(gen.Time, gen.Str, ref.TimeV(t0.Add(time.Second)), ref.StrV("y"), ref.TimeV(t0.UTC()), ref.StrV("x"))}
 	var oc []*ref.V
@@ -124,6 +125,19 @@ func c18Values() map[string][]*ref.V {
 	}
 	out["objcontainers"] = oc
 	out["maybe[list[num]]"] = []*ref.V{ref.NothingV(gen.List(N)), ref.JustV(l12), ref.JustV(l21), ref.JustV(le), ref.JustV(ref.ListV(N, nums(1, 2)...))}
+	// the declared container types are written in the field order of their elements
+	mo := func(o *ref.V) *ref.V { return ref.MapV(gen.Str, o.T, ref.StrV("k"), o) }
+	out["maybe[map[str,obj]]"] = []*ref.V{ref.NothingV(gen.Map(gen.Str, tyOAB)), ref.JustV(mo(oab(1, "x"))), ref.JustV(mo(oba(1, "x"))), ref.JustV(mo(oab(2, "x")))}
+	out["maybe[list[obj]]"] = []*ref.V{ref.NothingV(tyLObj), ref.JustV(ref.ListV(tyOAB, oab(1, "x"))), ref.JustV(ref.ListV(tyOBA, oba(1, "x"))), ref.JustV(ref.ListV(tyOBA, oba(2, "x"))), ref.JustV(ref.ListV(tyOBA, oba(1, "x"), oab(2, "y")))}
+	onest := func(in *ref.V, first bool) *ref.V {
+		if first {
+			return ref.ObjV([]string{"p", "q"}, in, ref.NumV(1))
+		}
+		return ref.ObjV([]string{"q", "p"}, ref.NumV(1), in)
+	}
+	out["maybe[obj{obj}]"] = []*ref.V{ref.JustV(onest(oab(1, "x"), true)), ref.JustV(onest(oba(1, "x"), true)), ref.JustV(onest(oba(1, "x"), false)), ref.JustV(onest(oab(2, "x"), false)), ref.NothingV(onest(oab(1, "x"), true).T)}
+	out["maybe[maybe[obj]]"] = []*ref.V{ref.JustV(ref.JustV(oab(1, "x"))), ref.JustV(ref.JustV(oba(1, "x"))), ref.JustV(ref.NothingV(tyOAB)), ref.JustV(ref.NothingV(tyOBA)), ref.NothingV(gen.Maybe(tyOAB))}
+	out["list[maybe[obj]]"] = []*ref.V{ref.ListV(tyMbObj, ref.JustV(oab(1, "x"))), ref.ListV(gen.Maybe(tyOBA), ref.JustV(oba(1, "x"))), ref.ListV(tyMbObj, ref.NothingV(tyOAB)), ref.ListV(gen.Maybe(tyOBA), ref.NothingV(tyOBA)), ref.ListV(tyMbObj, ref.JustV(oab(1, "x")), ref.NothingV(tyOBA))}
 	out["maybe[num]"] = []*ref.V{ref.NothingV(N), ref.JustV(ref.NumV(1)), ref.JustV(ref.NumV(2)), ref.JustV(ref.NumV(1 + 2e-9))}
 	out["maybe[obj]"] = []*ref.V{ref.NothingV(tyOAB), ref.JustV(oab(1, "x")), ref.JustV(oba(1, "x")), ref.JustV(oab(2, "x"))}
 	return out
@@ -131,7 +145,7 @@ func c18Values() map[string][]*ref.V {
 
 func negZero() float64 { z := 0.0; return -z }
 
-var c18TypeOrder = []string{"num", "str", "bool", "time", "list[num]", "map[str,num]", "map[num,str]", "obj3", "list[obj]", "objnested", "maybe[num]", "maybe[obj]", "list[str]", "list[list[num]]", "map[bool,num]", "map[time,str]", "objcontainers", "maybe[list[num]]"}
+var c18TypeOrder = []string{"num", "str", "bool", "time", "list[num]", "map[str,num]", "map[num,str]", "obj3", "list[obj]", "objnested", "maybe[num]", "maybe[obj]", "list[str]", "list[list[num]]", "map[bool,num]", "map[time,str]", "objcontainers", "maybe[list[num]]", "maybe[map[str,obj]]", "maybe[list[obj]]", "maybe[obj{obj}]", "maybe[maybe[obj]]", "list[maybe[obj]]"}
 
 type c18Data struct {
 	X, Y *ref.V
